@@ -386,6 +386,9 @@ def parse_config_file(
                         file=stderr,
                     )
                 else:
+                    # A section that names the pattern again replaces the earlier one, and takes
+                    # its place in the file order (which decides between unstructured patterns).
+                    options.per_module_options.pop(glob, None)
                     options.per_module_options[glob] = updates
 
 
